@@ -15,6 +15,8 @@ import Upnp.Lemmas.C14Call
 import Upnp.Lemmas.C14Desc
 import Upnp.Lemmas.C14Svc
 import Upnp.Lemmas.C14Dev
+import Upnp.Lemmas.C14Bridge
+import Upnp.Gen.C08Types
 namespace Upnp.C14
 open Upnp PyDict
 
@@ -170,6 +172,27 @@ example :
         = .actionError (some 714) (some 500) := by
   decide +kernel
 
+/-- The domain of `call_roundtrip` is "names distinct per action **and direction**": `hnd` speaks of
+    the in-arguments only and `ValsOk` looks results up among the out-arguments only, so an action
+    may use one name for an in- and an out-argument (`UpnpAction.argument(name, direction)`), bound
+    to different variables.  Non-vacuity on exactly that shape: `Volume` goes in as a `ui2` and comes
+    out as a string, `Channel` the other way round; the served SCPD is read back with both arguments
+    of each name, the handler sees the integer, the caller gets the string. -/
+example :
+    let vN : VarDef := ⟨"Vol".toList, "ui2".toList, false, some "0".toList, some "100".toList, none, none⟩
+    let vS : VarDef := ⟨"Txt".toList, "string".toList, false, none, none, none, none⟩
+    let act : SAct := ⟨"SetVolume".toList, [⟨"Volume".toList, vN⟩, ⟨"Channel".toList, vS⟩],
+                                            [⟨"Volume".toList, vS⟩, ⟨"Channel".toList, vN⟩]⟩
+    let args : List (Str × Val) := [("Volume".toList, .int 7), ("Channel".toList, .str "L".toList)]
+    let vals : List (Str × Val) := [("Volume".toList, .str "seven".toList), ("Channel".toList, .int 7)]
+    let stype := "urn:schemas-upnp-org:service:S0:1".toList
+    (act.ins.map (·.name)).Nodup
+    ∧ (parseScpd [] (serializeScpd [] [vN, vS] [act])).map (fun p => (p.1, p.2.map actViewOf))
+        = some ([vN, vS].map (clientVarOf []), [actViewOf (cactOf [] act)])
+    ∧ handlerInput [] [act] (reqOf stype act args) = some ("SetVolume".toList, args)
+    ∧ clientCall [] stype (cactOf [] act) (serverHandle [] stype [act] (fun _ _ => .ret vals)) args = .ok vals := by
+  decide +kernel
+
 /-! ### description -/
 
 /-- **The served description of a state variable is parsed by the client into a model equal to the
@@ -262,5 +285,41 @@ example :
        | .resp 500 b => (match parseFault b with | some (.ok (some 402)) => true | _ => false)
        | _ => false) = true := by
   decide +kernel
+
+/-! ### composition with the merged client models (C05 factory, C08 types) -/
+
+section
+variable {F : Type} (fo : C08.FloatOps F)
+
+/-- **Description half composed with C05/C08.**  `x05` re-reads the document the C14 server model
+    serves (`serializeScpd`, the tree compared with the real server's output on every run) as the
+    symbolic tree of `client_factory`'s merged model; `specOfScpd` is the abstract description
+    (`C05.ScpdSpec`) that document denotes — per variable: name, data type, `sendEvents="yes|no"`
+    from the evented flag, default / one- or two-sided range / allowed list as the `out` texts of the
+    definition's typed values; per action: name and the in- then out-arguments with direction and
+    related variable.  For every definition with distinct variable and action names, in strict and
+    non-strict mode, C05's `serviceBody` — `_create_state_variables`, `_state_variable_create_schema`
+    and the lazily read attributes with **C08's coercers for all 26 types** (table regenerated from
+    const.py), `_create_actions` — applied to the served document returns exactly C05's `mirrorBody`
+    of that description: the object model `factory_mirror` (C05) demands.  Proof: the factory cannot
+    tell the served tree from C05's canonical rendering (`serviceBody_bridge`: child order, the
+    `specVersion` element and empty containers are invisible to it), then C05's `body_render`. -/
+theorem client_sees_definition_c05 (nonStrict : Bool) (fs : Facts) (vars : List VarDef) (sacts : List SAct)
+    (hvn : (vars.map fun v => C05.stripWs v.name).Nodup) (han : (sacts.map (·.name)).Nodup) :
+    C05.serviceBody fo Gen.C08Types.table nonStrict (.doc (x05 (serializeScpd fs vars sacts)))
+      = C05.mirrorBody fo Gen.C08Types.table nonStrict (.scpd (specOfScpd fs vars sacts)) := by
+  rw [serviceBody_bridge]
+  apply C05.body_render
+  refine ⟨?_, ?_⟩
+  · intro l hl
+    simp only [specOfScpd, Option.some.injEq] at hl
+    subst hl
+    simpa [List.map_map, Function.comp_def, specOfVar] using hvn
+  · intro lv _ l hl
+    simp only [specOfScpd, Option.some.injEq] at hl
+    subst hl
+    simpa [List.map_map, Function.comp_def, specOfAct] using han
+
+end
 
 end Upnp.C14
